@@ -1,7 +1,6 @@
 from __future__ import annotations
 
 import functools
-import itertools
 import operator
 
 from packaging.specifiers import InvalidSpecifier as PkgInvalidSpecifier
@@ -18,7 +17,6 @@ from dep_logic.specifiers.generic import GenericSpecifier
 from dep_logic.specifiers.range import RangeSpecifier
 from dep_logic.specifiers.special import AnySpecifier, EmptySpecifier
 from dep_logic.specifiers.union import UnionSpecifier
-from dep_logic.utils import is_not_suffix, version_split
 
 
 def from_specifierset(spec: SpecifierSet) -> VersionSpecifier:
@@ -27,6 +25,14 @@ def from_specifierset(spec: SpecifierSet) -> VersionSpecifier:
     return functools.reduce(
         operator.and_, map(_from_pkg_specifier, spec), RangeSpecifier()
     )
+
+
+def _prefix_bounds(epoch: int, release: tuple[int, ...]) -> tuple[Version, Version]:
+    """Bounds [lower, upper) of all versions whose release starts with the given prefix."""
+    head = f"{epoch}!" if epoch else ""
+    lower = Version(head + ".".join(map(str, (*release, 0))))
+    upper = Version(head + ".".join(map(str, (*release[:-1], release[-1] + 1, 0))))
+    return lower, upper
 
 
 def _from_pkg_specifier(spec: Specifier) -> VersionSpecifier:
@@ -48,21 +54,13 @@ def _from_pkg_specifier(spec: Specifier) -> VersionSpecifier:
             include_min = True
             include_max = True
         else:
-            version_parts = list(
-                itertools.takewhile(lambda x: x != "*", version_split(version))
-            )
-            min = Version(".".join([*version_parts, "0"]))
-            version_parts[-1] = str(int(version_parts[-1]) + 1)
-            max = Version(".".join([*version_parts, "0"]))
+            prefix = Version(version[: version.index("*")].rstrip("."))
+            min, max = _prefix_bounds(prefix.epoch, prefix.release)
             include_min = True
             include_max = False
     elif op == "~=":
         min = Version(version)
-        version_parts = list(
-            itertools.takewhile(is_not_suffix, version_split(version))
-        )[:-1]
-        version_parts[-1] = str(int(version_parts[-1]) + 1)
-        max = Version(".".join([*version_parts, "0"]))
+        _, max = _prefix_bounds(min.epoch, min.release[:-1])
         include_min = True
         include_max = False
     elif op == "!=":
@@ -76,12 +74,8 @@ def _from_pkg_specifier(spec: Specifier) -> VersionSpecifier:
                 simplified=str(spec),
             )
         else:
-            version_parts = list(
-                itertools.takewhile(lambda x: x != "*", version_split(version))
-            )
-            left = Version(".".join([*version_parts, "0"]))
-            version_parts[-1] = str(int(version_parts[-1]) + 1)
-            right = Version(".".join([*version_parts, "0"]))
+            prefix = Version(version[: version.index("*")].rstrip("."))
+            left, right = _prefix_bounds(prefix.epoch, prefix.release)
             return UnionSpecifier(
                 (
                     RangeSpecifier(max=left, include_max=False),
